@@ -275,9 +275,9 @@ def run(ctx):
 
     ctx.rule("R17.2", "recalculation hooks delegate to the element and recurse to the parent group")
     gs = st.classes.get("GroupShapes")
-    h = gs.methods.get(hook_name) if gs else None
+    h = prog.lookup(gs, hook_name) if gs else None     # its own, or the one it inherits (the element does nothing for a p:spTree)
     if h is not None and any(isinstance(x, ast.Call) and isinstance(x.func, ast.Attribute) and x.func.attr == "recalculate_extents"
-                             and dotted(x.func.value) == "self._grpSp" for x in ast.walk(h.node)):
+                             and dotted(x.func.value) in ("self._grpSp", "self._element", "self._spTree") for x in ast.walk(h.node)):
         ctx.ok("R17.2", "GroupShapes._recalculate_extents", sample={"delegates": "self._grpSp.recalculate_extents()"})
     else:
         ctx.violation("R17.2", "GroupShapes._recalculate_extents", "group collection hook does not recalculate the group element",
@@ -344,6 +344,15 @@ def run(ctx):
         up = [i for i, x in enumerate(sts) if isinstance(x, ast.Expr) and isinstance(x.value, ast.Call)
               and ast.unparse(x.value) == "self.getparent().recalculate_extents()"]
         def not_a_group(a_):
+            if a_[0] == "truthy" and isinstance(a_[1], str) and a_[1].startswith("self.") and "." not in a_[1][5:]:
+                # a predicate property of the element (`self._is_grpSp`) that returns the tag comparison
+                pr_ = prog.lookup(ge, a_[1][5:])
+                if pr_ is not None and pr_.kind in ("property", "lazyproperty"):
+                    rs_ = [x.value for x in ast.walk(pr_.node) if isinstance(x, ast.Return) and x.value is not None]
+                    if len(rs_) == 1 and isinstance(rs_[0], ast.Compare) and len(rs_[0].ops) == 1 and isinstance(rs_[0].ops[0], (ast.Eq, ast.NotEq)) \
+                            and {ast.unparse(rs_[0].left), ast.unparse(rs_[0].comparators[0])} == {"self.tag", "qn('p:grpSp')"}:
+                        return isinstance(rs_[0].ops[0], ast.Eq) != a_[2]
+                return False
             if a_[0] != "cmp" or a_[1] not in ("Eq", "NotEq") or {a_[2], a_[3]} != {"self.tag", "qn('p:grpSp')"}:
                 return False
             return (a_[1] == "Eq") != a_[4]
